@@ -501,7 +501,9 @@ static bool opMut(HxLine& l)
   {
     ValArg a;
     if(!parseValArg(l, 4, a)) return false;
-    if(n > 0 && a.usesVar[v]) return false;            // precondition mutOk
+    // precondition mutOk of the model (conservative here: the temporary is built before the accessor chain, so the real
+    // code is correct); `mutx` runs the line all the same — explored against the value reference only
+    if(n > 0 && a.usesVar[v] && strcmp(l.tok[0], "mutx") != 0) return false;
     if(a.kind == 0 && a.lit.isNull()) return false;    // no typed operator= for null
     if(!cx) return false;
     Variant& x = *walkMut(var[v], steps, n);
@@ -676,7 +678,7 @@ int main()
     int v, w;
     if(hxIs(l, "reset", 0)) { resetAll(); ok = true; }
     else if(strcmp(l.tok[0], "new") == 0) ok = opNew(l);
-    else if(strcmp(l.tok[0], "mut") == 0) ok = opMut(l);
+    else if(strcmp(l.tok[0], "mut") == 0 || strcmp(l.tok[0], "mutx") == 0) ok = opMut(l);
     else if(strcmp(l.tok[0], "get") == 0) ok = opGet(l);
     else if(hxIs(l, "copy", 2))
     {
